@@ -556,6 +556,36 @@ def execute(case):
                             V('shape', feats, f'block {k!r}: shape {tuple(xd.shape)} expected {case["shapes"][i]}')
                         got[off[i]:off[i + 1]] = xd.reshape(-1).numpy()
                 compare(sem, got, want, feats + (['transpose'] if tr else []), f'A={Aeff.tolist()} b={bfull.tolist()} shapes={case["shapes"]}')
+                if case['seed'] % 3 == 0 and seen:
+                    # history on the same MultiTensor: one block is overwritten in place (copy_) by a block of another
+                    # pattern -- diagonal <-> dense -- and the same operation is asked again
+                    hr = Stream(case['seed'], 'again')
+                    (i, j) = sorted(seen)[hr.randrange(len(seen))]
+                    M2 = np.array([[round(hr.random() * 0.3, 3) if hr.random() < 0.7 else 0.0 for _ in range(sizes[j])] for _ in range(sizes[i])], dtype=np.float64)
+                    old_t = a[keys[i], keys[j]]
+                    was_diag = len(old_t.paxes) < len(case['shapes'][i]) + len(case['shapes'][j])
+                    if (not was_diag) and case['shapes'][i] == case['shapes'][j] and case['shapes'][i]:
+                        M2 = np.diag(np.diag(M2))
+                        ks = tuple(IX.PhysicalAxis(s_) for s_ in case['shapes'][i])
+                        t2 = IX.PatternedTensor(lift_t(sem, np.diag(M2).reshape(case['shapes'][i]), dtype), ks, ks + ks, zero)
+                    else:
+                        t2 = IX.PatternedTensor(lift_t(sem, M2.reshape(list(case['shapes'][i]) + list(case['shapes'][j])), dtype), default=zero)
+                    old_t.copy_(t2)
+                    c.inc('hist.block-overwritten-in-place')
+                    Afull[off[i]:off[i + 1], off[j]:off[j + 1]] = M2
+                    Aeff = Afull.T if tr else Afull
+                    with recorded_warnings():
+                        try:
+                            x = MU.multi_solve(a, bm, transpose=tr) if case['api'] == 'multi_solve' else MU.multi_mv(a, bm, transpose=tr)
+                        except Exception as ex:
+                            V('raised', feats + ['again', type(ex).__name__], f'{case["api"]} after an in-place block update raised {type(ex).__name__}: {ex}')
+                    want = SR.solve(sem, lift_np(sem, Aeff), lift_np(sem, bfull)) if case['api'] == 'multi_solve' else SR.matvec(sem, lift_np(sem, Aeff), lift_np(sem, bfull))
+                    if want is not None:
+                        got = np.array(lift_np(sem, np.zeros(N)))
+                        for i_, k_ in enumerate(keys):
+                            if k_ in x:
+                                got[off[i_]:off[i_ + 1]] = x[k_].to_dense().reshape(-1).numpy()
+                        compare(sem, got, want, feats + ['again'] + (['transpose'] if tr else []), f'after overwriting block ({i},{j}) in place: A={Aeff.tolist()} b={bfull.tolist()} shapes={case["shapes"]}')
                 for o in orders:
                     c.inc('probe.elimination-order.' + str(len(o)))
                 nontrivial = len(seen) >= 2
